@@ -79,7 +79,9 @@ func init() {
 		ref, err1 := call(nil)
 		nilout := append([]byte(nil), ref...)
 		_, _ = other(make([]byte, 0, 8))
-		out, err2 := call(caller)
+		var out []byte
+		var err2 error
+		e["panic"] = try(func() { out, err2 = call(caller) })
 		e["ok"] = err1 == nil && err2 == nil
 		e["nilout"], e["out"] = B(nilout), B(out)
 		e["preafter"] = B(backing[:len(prefix)])
@@ -87,12 +89,16 @@ func init() {
 		// with a longer prefix and used again for the same value
 		p2 := append(append(out[:0], prefix...), "##reuse##"...)
 		want2 := append([]byte(nil), p2...)
-		out2, _ := call(p2)
+		var out2, c3 []byte
+		p2nd := try(func() {
+			out2, _ = call(p2)
+			// chained use: the result of one call is the buffer of the next
+			c1, _ := call(nil)
+			c2, _ := call(c1)
+			c3, _ = call(c2)
+		})
+		e["panic"] = e["panic"] == true || p2nd
 		e["reusepre"], e["reuseout"] = B(want2), B(out2)
-		// chained use: the result of one call is the buffer of the next
-		c1, _ := call(nil)
-		c2, _ := call(c1)
-		c3, _ := call(c2)
 		e["chain"] = B(c3)
 		return e
 	}
